@@ -19,8 +19,10 @@ from .harness import Ctx
 
 class Opaque:
     """python stand-in for an opaque object of the model; == follows the model's equivalence classes"""
-    def __init__(self, term, cls, selfne=False):
+    def __init__(self, term, cls, selfne=False, truthy=True):
         self.term = term; self.cls = cls; self.selfne = selfne       # selfne: the model says this object is != to itself (like NaN)
+        self.truthy = truthy                                         # the model's obj_truthy: an opaque object may be falsy (an empty dict ...)
+    def __bool__(self): return self.truthy
     def __eq__(self, o): return isinstance(o, Opaque) and o.cls == self.cls and not self.selfne and not o.selfne
     def __ne__(self, o): return not self.__eq__(o)
     def __hash__(self): return hash(('opaque', self.cls))
@@ -84,7 +86,7 @@ class Concretizer:
         if d.eq(V.VObj):
             cls = str(self.ev(ocanon(t.arg(0))))
             if str(t) not in self.by_term:
-                o = Opaque(t, cls, selfne=is_true(self.ev(selfne_o(t.arg(0))))); self.by_term[str(t)] = o; self.py_terms[id(o)] = (o, t)
+                o = Opaque(t, cls, selfne=is_true(self.ev(selfne_o(t.arg(0)))), truthy=is_true(self.ev(obj_truthy(t.arg(0))))); self.by_term[str(t)] = o; self.py_terms[id(o)] = (o, t)
             return self.by_term[str(t)]
         if d.eq(V.VRef):
             o = Opaque(t, 'ref' + str(t.arg(0))); self.py_terms[id(o)] = (o, t); return o
